@@ -157,6 +157,12 @@ def run(ctx):
                         other = True
                 ok = true_sets == UCANON[v] and rest_false and not other
                 d = "true on %s, wildcard -> false: %s" % (sorted(true_sets), rest_false)
+            # the answer comes from Value::compare alone: an arm (or a helper it calls) that looks at the operands itself - their kind, their
+            # length - decides comparability by a rule of its own
+            arm_inl = a["body"]
+            peeks = sorted({x["name"] for x in H.walk(arm_inl) if H.kind(x) == "MethodCall" and x["name"] in ("len", "as_list", "as_string", "as_record", "as_number", "get_type", "is_list", "is_string", "is_number", "is_record", "reify", "is_empty")})
+            if peeks and ok is not False:
+                ok, d = False, "besides compare() the arm inspects its operands (%s): comparability is decided by a second rule" % peeks
             if ok is None:
                 # another way of writing it (merged arms, a predicate method, `is_some_and`): specialise the arm for this variant and for each
                 # possible answer of compare() and read off when it says true (lib/pe - constants folded, nothing is run)
@@ -223,6 +229,14 @@ def run(ctx):
     # ---------------- R4 lexicographic tie-break
     ctx.rule("C12.R4", "list comparison returns the first non-Equal element ordering and otherwise compares len(left) with len(right) in that order (a proper prefix is smaller)", floor=2)
     list_compare_rule(ctx, "C12.R4", core)
+
+    # ---------------- R9 the comparison operators sit on their documented level
+    ctx.rule("C12.R9", "every comparison operator (plain and dot-prefixed) is registered on the comparison level of the parser: `.>=` groups like `.>` and `.==`, so it is their union for every right operand, parenthesised or not", floor=12)
+    from rules import c10 as c10_
+    from rules.c04 import _Only
+    c10_.CRATE[0] = core
+    CMP_OPS = ("Equal", "NotEqual", "Less", "LessEq", "Greater", "GreaterEq", "DotEqual", "DotNotEqual", "DotLess", "DotLessEq", "DotGreater", "DotGreaterEq")
+    c10_.binding_levels_rule(_Only(ctx, lambda k_: k_.startswith("op=") and k_[3:] in CMP_OPS or k_ == "build_pratt_parser#shape"), "C12.R9", core, c10_.precedence_rows(core))
 
     # ---------------- R8 no answer from heap identity
     from rules import c02 as c02_
